@@ -7,6 +7,9 @@ import (
 	"reflect"
 	"regexp"
 	"sort"
+	"sync"
+	"time"
+	"verif/harness/xport"
 
 	"github.com/SAP/go-dblib/tds"
 
@@ -271,6 +274,11 @@ func runC07(c *Ctx) {
 			r.Inconclusive("bad replay: %v", err)
 			return
 		}
+		if rec.Source == "channel" {
+			// channel-level case: re-run every cut of this encoding
+			c07ChannelLeg(c, []c07Enc{{cs: pkgCase{Type: rec.Type, Variant: rec.Variant, Opt: rec.Opt, Ref: q}, Source: "ref", X: X}})
+			return
+		}
 		x.run(c07Enc{cs: pkgCase{Type: rec.Type, Variant: rec.Variant, Opt: rec.Opt, Ref: q}, Source: rec.Source, X: X}, 1<<30, rec.K)
 		return
 	}
@@ -329,5 +337,95 @@ func runC07(c *Ctx) {
 			r.Sample(e.cs.Type+"/"+e.Source, rec)
 		}
 		x.run(e, max, 0)
+	})
+	c07ChannelLeg(c, encs)
+}
+
+// c07ChannelLeg: the same clause at channel level, with the truncation made
+// final by an end of message. Message 1 ends (EOM) inside the package X at
+// every prefix length; message 2 then carries the complete X followed by a
+// final DONE. Whatever message 1 yields is drained and discarded; message 2
+// must be delivered exactly as on a channel that never saw message 1.
+func c07ChannelLeg(c *Ctx, encs []c07Enc) {
+	r := c.R
+	self := map[string]bool{"DONE": true, "DONEPROC": true, "DONEINPROC": true, "EED": true, "MSG": true, "RETURNSTATUS": true, "LOGINACK": true,
+		"CAPABILITY": true, "ERROR": true, "PARAMFMT": true, "PARAMFMT2": true, "ROWFMT": true, "ROWFMT2": true, "CURINFO": true, "CURINFO3": true, "DYNAMIC": true, "DYNAMIC2": true, "ENVCHANGE": true}
+	type job struct {
+		e c07Enc
+		k int
+	}
+	var jobs []job
+	perType := map[string]int{}
+	limit := 3
+	if !c.Quick() {
+		limit = 40
+	}
+	for _, e := range encs {
+		if e.Source != "ref" || !self[e.cs.Type] || len(e.X) > 300 || len(e.X) < 2 {
+			continue
+		}
+		if e.cs.Type == "DONE" || e.cs.Type == "DONEPROC" || e.cs.Type == "DONEINPROC" {
+			// a DONE with status 0 would end message 2 early in the comparison; any DONE is fine as X
+		}
+		if perType[e.cs.Type] >= limit {
+			continue
+		}
+		perType[e.cs.Type]++
+		for k := 1; k < len(e.X); k++ {
+			if len(e.X) > 64 && k > 16 && k < len(e.X)-16 && k%7 != 0 {
+				continue
+			}
+			jobs = append(jobs, job{e, k})
+		}
+	}
+	done0 := []byte{0xfd, 0, 0, 0, 0, 0, 0, 0, 0}
+	deliver := func(msgs ...[]byte) (delivered, bool) {
+		k, err := newKit(4096, 0)
+		if err != nil {
+			return delivered{}, false
+		}
+		defer k.teardown()
+		var last delivered
+		for _, m := range msgs {
+			k.tr.Feed(xport.Packet(byte(tds.TDS_BUF_RESPONSE), xport.EOM, 0, m))
+			if !awaitIdle(k.tr, 30*time.Second) {
+				return delivered{}, false
+			}
+			last = drainChannel(k.ch, k.ctx)
+		}
+		return last, true
+	}
+	refs := map[string]delivered{}
+	var mu sync.Mutex
+	c.parallel(len(jobs), func(i int) {
+		j := jobs[i]
+		full := append(append([]byte(nil), j.e.X...), done0...)
+		key := string(j.e.X)
+		mu.Lock()
+		ref, ok := refs[key]
+		mu.Unlock()
+		if !ok {
+			var good bool
+			ref, good = deliver(full)
+			if !good || len(ref.Errs) > 0 {
+				r.Count("channel_leg_reference_not_clean", 1)
+				return
+			}
+			mu.Lock()
+			refs[key] = ref
+			mu.Unlock()
+		}
+		r.Eval(1)
+		got, good := deliver(j.e.X[:j.k], full)
+		if !good {
+			r.Inconclusive("channel leg: reader did not become idle (%s k=%d)", j.e.cs.Type, j.k)
+			return
+		}
+		r.DistinctN(1)
+		r.Count("channel_leg_cases", 1)
+		if len(got.Errs) > 0 || !sameStrings(got.Dumps, ref.Dumps) {
+			rec := c07CaseRec{Type: j.e.cs.Type, Variant: j.e.cs.Variant, Opt: j.e.cs.Opt, Source: "channel", K: j.k, Hex: hex.EncodeToString(j.e.X), Ref: j.e.cs.Ref}
+			r.Violate("channel/"+j.e.cs.Type+"/complete-message-after-cut-off-message-differs", fmt.Sprintf("message 1 = first %d of %d bytes of a %s with EOM, message 2 = the complete package + final DONE: delivered %v errors %v; without message 1: %v", j.k, len(j.e.X), j.e.cs.Type, got.Types, got.Errs, ref.Types), rec)
+		}
 	})
 }
